@@ -182,6 +182,16 @@ CLAIMED["C20"] = (
     "per-axis depth. Blob detection with LoG/DoG (5 chunkings, 3 dtypes) and rotated-template matching are numeric oracles; "
     "the matcher's chunk-border behaviour is a known finding.",
     "regenerated anchors + Coq tiling theorem + scripted-picker correspondence; numeric oracle for detection")
+CLAIMED["C04"] = (
+    "PARTIAL. Theorems (Coq): (Reals) for a sub-volume that is the template displaced by d, the exact circular cross-correlation "
+    "attains |template|^2 at lag d and no lag exceeds it (Cauchy-Schwarz), the normalised score is 1 there and <= 1 elsewhere; "
+    "(Z/Q, on the generated C05 anchors) landscape index j denotes displacement j - trunc(m) for ZNCC/NCC, i - ceil(m) for FSC, "
+    "j - trunc(m) for the centred PCC crop, the FFT-ordered PCC arg-max unwraps into [-trunc m, trunc m], the refinement mesh "
+    "contains the integer peak and the reported shift is coarse + t/20. Tie: anchors shared with C05 (regenerated); integer images "
+    "rolled by integer d through all four landscape functions, arg-max index mapped to a displacement inside Coq and compared with "
+    "d (sign and index conventions). The headline 0.1 px / 0.5 px accuracy for fractional displacements, faces and corners of the "
+    "range, odd/even/non-cubic boxes, cutoffs and orientations is a numeric oracle on band-limited templates, not a theorem.",
+    "Coq theorems over R and Z/Q + in-Coq peak-index correspondence; numeric oracle for sub-pixel accuracy")
 NOT_YET = "machinery for this property is not built yet in this revision (see DESIGN.md §6 for the planned model)"
 
 def main():
